@@ -12,6 +12,8 @@ package drift
 
 import (
 	"context"
+	"crypto/sha256"
+	"encoding/hex"
 	"encoding/json"
 	"flag"
 	"fmt"
@@ -707,6 +709,45 @@ func annOr(m map[string]string, k string) string {
 	return "-"
 }
 
+// canonTemplate: the content of .spec.template without the requirements, as the API sees it (JSON), with every list
+// sorted - an order-insensitive canonical form that does not depend on (*NodePool).Hash().
+func canonTemplate(np *v1.NodePool) string {
+	t := np.Spec.Template.DeepCopy()
+	t.Spec.Requirements = nil
+	b, err := json.Marshal(t)
+	if err != nil {
+		return "?"
+	}
+	var x any
+	if err := json.Unmarshal(b, &x); err != nil {
+		return "?"
+	}
+	var canon func(v any) any
+	canon = func(v any) any {
+		switch y := v.(type) {
+		case map[string]any:
+			for k := range y {
+				y[k] = canon(y[k])
+			}
+			return y
+		case []any:
+			for i := range y {
+				y[i] = canon(y[i])
+			}
+			sort.Slice(y, func(i, j int) bool {
+				a, _ := json.Marshal(y[i])
+				c, _ := json.Marshal(y[j])
+				return string(a) < string(c)
+			})
+			return y
+		}
+		return v
+	}
+	out, _ := json.Marshal(canon(x))
+	sum := sha256.Sum256(out)
+	return "=" + hex.EncodeToString(sum[:8])
+}
+
 func (s *sim) obs(after string) {
 	ev := trace.M{"e": "Obs", "after": after, "now": s.w.Clock.Sec()}
 	if np, ok := s.pool(); ok {
@@ -737,10 +778,10 @@ func (s *sim) obs(after string) {
 			reqs = append(reqs, absReq(r, cls))
 		}
 		ev["pool"] = trace.M{"exists": true, "hashAnn": annOr(np.Annotations, v1.NodePoolHashAnnotationKey),
-			"verAnn": annOr(np.Annotations, v1.NodePoolHashVersionAnnotationKey), "specHash": "=" + np.Hash(), "reqs": reqs,
+			"verAnn": annOr(np.Annotations, v1.NodePoolHashVersionAnnotationKey), "specHash": "=" + np.Hash(), "tmplCanon": canonTemplate(np), "reqs": reqs,
 			"static": np.Spec.Replicas != nil, "gen": int(np.Generation)}
 	} else {
-		ev["pool"] = trace.M{"exists": false, "hashAnn": "-", "verAnn": "-", "specHash": "-", "reqs": []trace.M{}, "static": false, "gen": 0}
+		ev["pool"] = trace.M{"exists": false, "hashAnn": "-", "verAnn": "-", "specHash": "-", "tmplCanon": "-", "reqs": []trace.M{}, "static": false, "gen": 0}
 	}
 	claims := []trace.M{}
 	for _, c := range s.order {
